@@ -172,7 +172,12 @@ def run(tier):
             rec["err"] = "%s: %s" % (type(ex).__name__, str(ex)[:100])
         records.append(rec)
         meta[tid] = (fn, None, None)
-    verdicts = tracecheck.validate("TraceComments", records, "c14", ck=ck, chunk=600)
+    def canary(r):
+        if not r.get("accepted") or not r["out"]:
+            return None
+        r["out"] = r["out"] + [r["out"][0]] * (1 + r["src"].count(r["out"][0]))
+        return r
+    verdicts = tracecheck.validate("TraceComments", records, "c14", ck=ck, chunk=600, canary=canary)
     for tid, v in verdicts.items():
         if v["verdict"] != "ok":
             text, out_c, cms = meta[tid]
